@@ -1,10 +1,21 @@
 #!/usr/bin/env python3
-"""tools/seed_prompt.py PID N -> creates worktree /tmp/seed-PID and prints the prompt for a fresh seeding sub-agent."""
+"""tools/seed_prompt.py PID N [WAVE] -> creates worktree /tmp/seed<WAVE>-PID and prints the prompt for a fresh seeding sub-agent.
+Wave >= 2 lists the titles of the changes already kept for that property so that new ones differ."""
 import json, sys, subprocess, os
-pid, n = sys.argv[1], sys.argv[2]
-wt = f"/tmp/seed-{pid.lower()}"
+pid, n = sys.argv[1], int(sys.argv[2])
+wave = int(sys.argv[3]) if len(sys.argv) > 3 else 1
+wt = f"/tmp/seed{'' if wave == 1 else wave}-{pid.lower()}"
 if not os.path.exists(wt):
     subprocess.run(["git", "-C", "/repo", "worktree", "add", "--detach", wt, "HEAD", "-q"], check=True)
 p = [json.loads(l) for l in open("/verif/properties.jsonl") if json.loads(l)["id"] == pid][0]
 t = open("/root/agent_prompts/seed.txt").read()
-print(t.format(WT=wt, N=n, OUT="/tmp/seed-out", PID=pid, TITLE=p["title"], STATEMENT=p["statement"], QUANT=p["quantifier"]["text"], FILES=", ".join(p["anchors"]["files"])))
+have = sorted(d for d in os.listdir("/verif/seeded") if d.startswith(pid + "-")) if os.path.isdir("/verif/seeded") else []
+avoid = ""
+if wave > 1 and have:
+    titles = [json.load(open(f"/verif/seeded/{d}/meta.json")).get("title", "") for d in have]
+    avoid = ("Changes ALREADY produced for this property by other people (do not repeat these ideas or trivial variations of them; "
+             "pick other clauses of the property, other files / functions among the anchored code, or other triggering conditions):\n"
+             + "\n".join("  - " + x for x in titles) + "\n\n")
+k0 = len(have) + 1 if wave > 1 else 1
+print(t.format(WT=wt, N=n, OUT="/tmp/seed-out" + ("" if wave == 1 else str(wave)), PID=pid, TITLE=p["title"], STATEMENT=p["statement"],
+               QUANT=p["quantifier"]["text"], FILES=", ".join(p["anchors"]["files"]), AVOID=avoid, K0=k0, K1=k0 + n - 1))
